@@ -44,6 +44,7 @@ type root18 struct {
 	fileN  int
 	fields map[string][]string // list-valued path fields, emitted last
 	helm   bool                // give this root helm fields and a chart home
+	resOnly bool               // only `resources` (files and roots) and non-path directives
 	adv    bool                // adversarial variants allowed
 	scope  string              // the scope directory of the tree
 }
@@ -168,6 +169,12 @@ func (r *root18) fill(rootRefs map[string][]string) {
 			f := r.add(r.fname("cm", ".yaml"), cmDoc(fmt.Sprintf("%s-cm%d", r.tagN, i)))
 			r.fields["resources"] = append(r.fields["resources"], r.spell(f))
 		}
+	}
+	if r.resOnly {
+		if rng.Chance(50) {
+			r.lines = append(r.lines, "configMapGenerator:", "- name: "+r.tagN+"-lit", "  literals:", "  - a=b")
+		}
+		return
 	}
 	if rng.Chance(8) {
 		f := r.add(r.fname("schema", ".json"), openapiDoc)
@@ -401,7 +408,7 @@ func (r *root18) fillHelm() {
 	if rng.Chance(35) {
 		more = append(more, r.spell(r.add(r.fname("hmore", ".yaml"), "replicas: 3\n")))
 	}
-	if exists && !filepath.IsAbs(home) && rng.Chance(15) {
+	if exists && !filepath.IsAbs(home) && !strings.HasPrefix(home, "..") && rng.Chance(15) {
 		// a values file INSIDE the chart home: it is copied before the home itself
 		values = filepath.Join(home, "app/values.yaml")
 		t.tag("helm:values-inside-home")
@@ -669,6 +676,14 @@ func genTree18(rng *Rng) *tree18 {
 	}
 	if rng.Chance(14) {
 		roots[rng.Intn(len(roots))].helm = true
+	} else if rng.Chance(20) {
+		// the fragment shared with the integrated build model: resources (files, nested roots) only
+		for i := range roots {
+			if roots[i].kind == "Kustomization" {
+				roots[i].resOnly = true
+			}
+		}
+		t.tag("resources-only")
 	}
 	for i := range roots {
 		roots[i].adv = adv
